@@ -54,7 +54,7 @@ func runC01(c *ctx, r *Report) error {
 		nMut = 40000
 	}
 	repl := c01Replacements()
-	r.Rule = fmt.Sprintf("(1) node kind × tag × position: at EVERY node of the three base workflows (all sections of the syntax), of a local action.yml, of a reusable workflow and of actionlint.yaml, the node is replaced by each of %d replacements (mapping, empty mapping, sequence, nested, merge key, null, explicit !!float nan/.nan/.inf/1e999/-0/abc, !!int 0x/huge/abc, !!bool, !!binary, !custom, !!timestamp, broken placeholders, NUL, 70 kB scalar, deep parenthesis / property / JSON nesting) and keys are replaced by non-string nodes; an alias (with its anchor elsewhere) is planted at every position, bare and one / two levels inside a planted sequence or mapping, and as a mapping key; (2) %d random byte-level mutations (flip, insert special bytes, truncate, duplicate lines) of the four files incl. invalid UTF-8; (3) deep nesting and 64 KiB inputs in a child process; (4) 16 + 15 spellings of local workflow / action specs (well-formed, @ref, missing, directory, unparseable, placeholder, path tricks), each used twice in each of two files linted together; every case must end in diagnostics or a fatal error (exit 0/1/3 through Command.Main for a sample), never a panic, fatal runtime error or a 20 s timeout; non-trivial = distinct mutated sources", len(repl), nMut)
+	r.Rule = fmt.Sprintf("(1) node kind × tag × position: at EVERY node of the three base workflows (all sections of the syntax), of a local action.yml, of a reusable workflow and of actionlint.yaml, the node is replaced by each of %d replacements (mapping, empty mapping, sequence, nested, merge key, null, explicit !!float nan/.nan/.inf/1e999/-0/abc, !!int 0x/huge/abc, !!bool, !!binary, !custom, !!timestamp, broken placeholders, NUL, 70 kB scalar, deep parenthesis / property / JSON nesting) and keys are replaced by non-string nodes; an alias (with its anchor elsewhere) is planted at every position, bare and one / two levels inside a planted sequence or mapping, and as a mapping key; (2) %d random byte-level mutations (flip, insert special bytes, truncate, duplicate lines) of the four files incl. invalid UTF-8; (3) deep nesting and 64 KiB inputs in a child process; (4) 16 + 15 spellings of local workflow / action specs (well-formed, @ref, missing, directory, unparseable, placeholder, path tricks), each used twice in each of two files linted together, plain, with -verbose and with -debug logging (-verbose wins over -debug, so each is run alone); (4b) 8 of them in two files that belong to no repository, through Command.Main in a child process; every case must end in diagnostics or a fatal error (exit 0/1/3 through Command.Main for a sample), never a panic, fatal runtime error or a 20 s timeout; non-trivial = distinct mutated sources", len(repl), nMut)
 	tmp, err := os.MkdirTemp("", "verif-c01-")
 	if err != nil {
 		return err
@@ -308,20 +308,84 @@ func runC01(c *ctx, r *Report) error {
 				r.Evaluations++
 				r.nontrivial("spec:" + kind + spec)
 				r.hist("callee-spec:" + kind)
-				pmsg, to := guarded(20*time.Second, func() {
-					l, err := actionlint.NewLinter(nopWriter{}, &actionlint.LinterOptions{Shellcheck: "", Pyflakes: ""})
-					if err != nil {
-						return
+				// … with the options as on a plain command line, and with -verbose / -debug logging switched on
+				for _, opts := range []*actionlint.LinterOptions{{Shellcheck: "", Pyflakes: ""}, {Shellcheck: "", Pyflakes: "", Verbose: true, LogWriter: nopWriter{}}, {Shellcheck: "", Pyflakes: "", Debug: true, LogWriter: nopWriter{}}} {
+					opts := opts
+					pmsg, to := guarded(20*time.Second, func() {
+						l, err := actionlint.NewLinter(nopWriter{}, opts)
+						if err != nil {
+							return
+						}
+						l.LintFiles([]string{filepath.Join(".github", "workflows", "caller.yml"), filepath.Join(".github", "workflows", "caller2.yml")}, nil)
+					})
+					r.Evaluations++
+					if pmsg != "" || to {
+						w2 := what
+						if opts.Debug {
+							w2 += " (with -debug)"
+						} else if opts.Verbose {
+							w2 += " (with -verbose)"
+						}
+						report("callee-spec", w2, src, pmsg, to)
 					}
-					l.LintFiles([]string{filepath.Join(".github", "workflows", "caller.yml"), filepath.Join(".github", "workflows", "caller2.yml")}, nil)
-				})
-				if pmsg != "" || to {
-					report("callee-spec", what, src, pmsg, to)
 				}
 			}
 		}
 		os.Remove(filepath.Join(root, ".github", "workflows", "caller2.yml"))
 		restore()
+	}
+	// (4b) the same spec spellings in files that belong to NO repository (no .git above them), two files per invocation, in a
+	// child process (a panic in one of the per-file goroutines cannot be recovered in-process)
+	{
+		self, _ := os.Executable()
+		nodir := filepath.Join(tmp, "norepo")
+		os.MkdirAll(nodir, 0o755)
+		specs := []string{"./foo@bar", "./.github/workflows/x.yml", "./.github/workflows/x.yml@v1", "./", "owner/repo/.github/workflows/x.yml@v1", "./act", "./act@v1", "./${{ matrix.x }}"}
+		for _, kind := range []string{"workflow", "action"} {
+			for _, spec := range specs {
+				var src string
+				if kind == "workflow" {
+					src = "on: push\njobs:\n  a:\n    uses: " + spec + "\n  b:\n    uses: " + spec + "\n"
+				} else {
+					src = "on: push\njobs:\n  a:\n    runs-on: ubuntu-latest\n    steps:\n      - uses: " + spec + "\n      - uses: " + spec + "\n"
+				}
+				p1, p2 := filepath.Join(nodir, "a.yml"), filepath.Join(nodir, "b.yml")
+				os.WriteFile(p1, []byte(src), 0o644)
+				os.WriteFile(p2, []byte(src), 0o644)
+				cmd := exec.Command(self, "-replay", p1+","+p2, "C01-child")
+				var out bytes.Buffer
+				cmd.Stdout, cmd.Stderr = &out, &out
+				cmd.Dir = nodir
+				done := make(chan error, 1)
+				cmd.Start()
+				go func() { done <- cmd.Wait() }()
+				r.Evaluations++
+				r.nontrivial("norepo:" + kind + spec)
+				cs := Case{Op: "lint-child", Input: map[string]string{"files": "a.yml b.yml (outside any repository)", "source": src}}
+				select {
+				case err := <-done:
+					code := 0
+					if ee, ok := err.(*exec.ExitError); ok {
+						code = ee.ExitCode()
+					}
+					r.hist(fmt.Sprintf("norepo-exit:%d", code))
+					if code != 0 && code != 1 && code != 3 {
+						key := "crash:norepo"
+						for _, ln := range strings.Split(out.String(), "\n") {
+							if i := strings.Index(ln, "/repo/"); i >= 0 && strings.Contains(ln, ".go:") {
+								key = "panic:" + strings.Fields(ln[i+len("/repo/"):])[0]
+								break
+							}
+						}
+						cs.Note = truncate(out.String(), 1500)
+						r.finding(key, fmt.Sprintf("two files outside any repository with `uses: %s`: the process exits with status %d", spec, code), cs)
+					}
+				case <-time.After(60 * time.Second):
+					cmd.Process.Kill()
+					r.finding("hang:norepo", "child process did not finish within 60 s", cs)
+				}
+			}
+		}
 	}
 	// (3) deep / large inputs in a child process (a fatal runtime error cannot be recovered in-process)
 	self, _ := os.Executable()
@@ -371,7 +435,7 @@ func runC01(c *ctx, r *Report) error {
 func runC01Child(c *ctx, r *Report) error {
 	var out, errb bytes.Buffer
 	cmd := actionlint.Command{Stdin: strings.NewReader(""), Stdout: &out, Stderr: &errb}
-	st := cmd.Main([]string{"actionlint", "-shellcheck=", "-pyflakes=", "-oneline", c.replay})
+	st := cmd.Main(append([]string{"actionlint", "-shellcheck=", "-pyflakes=", "-oneline"}, strings.Split(c.replay, ",")...))
 	os.Exit(st)
 	return nil
 }
